@@ -554,10 +554,13 @@ def build_txdbus_message(MSG, msg, oobFDs=None):
     sig = msg['sig'] if msg['sig'] else None
     t = msg['type']
     if t == 1:
+        kw = {}
+        if msg['no_reply'] or msg['no_auto'] or sum(msg['pres']) % 2:
+            kw = dict(expectReply=not msg['no_reply'], autoStart=not msg['no_auto'])
+        # else: the documented defaults (reply expected, auto-start allowed) are relied upon
         return MSG.MethodCallMessage(f['path'], f['member'], interface=f.get('interface'),
                                      destination=f.get('destination'), signature=sig, body=body,
-                                     expectReply=not msg['no_reply'], autoStart=not msg['no_auto'],
-                                     oobFDs=oobFDs)
+                                     oobFDs=oobFDs, **kw)
     if t == 2:
         return MSG.MethodReturnMessage(f['reply_serial'], body=body, destination=f.get('destination'),
                                        signature=sig)
